@@ -145,6 +145,17 @@ func (es *enumState) checkLastOp(h *history) {
 				vv.Features[k] = x
 			}
 			vv.Features["last_write"] = writeClass(last)
+			// is the crash point between the delete of an old pin record and the put of a new one, within this operation?
+			window := false
+			for w := sp.Start + 1; w <= j; w++ {
+				switch writeClass(h.rec.log[h.rec.writeAt[w]]) {
+				case "delete:record":
+					window = true
+				case "put:record":
+					window = false
+				}
+			}
+			vv.Features["old_record_deleted_new_not_written"] = fmt.Sprint(window)
 			vv.Features["target_pinned_before"] = fmt.Sprint(sp.PinnedBefore[target])
 			if lost, ok := tv.Features["lost"]; ok {
 				vv.Features["lost_is_target"] = fmt.Sprint(lost == target)
@@ -166,7 +177,7 @@ func (es *enumState) checkLastOp(h *history) {
 		// beyond the statement: images in which unsynced writes are lost out of order
 		u := unsynced(h.rec, j)
 		var subsets [][]int
-		if len(u) <= 6 {
+		if len(u) <= 5 {
 			for mask := 1; mask < 1<<len(u); mask++ {
 				var s []int
 				for b := range u {
@@ -236,8 +247,13 @@ func runUnit(r *eng.Run, u string) {
 	}
 	first, _ := strconv.Atoi(f[2])
 	alpha := alphabet(r.Thorough())
-	es := &enumState{r: r, cfg: f[1], cache: map[string]*imageVerdict{}, torn: true}
-	es.enumerate(alpha, []string{alpha[first]}, maxLen(r))
+	// out-of-order loss images only where the pinner syncs at all (autosync on)
+	es := &enumState{r: r, cfg: f[1], cache: map[string]*imageVerdict{}, torn: cfgVal(f[1], "auto") != "0"}
+	ml := maxLen(r)
+	if cfgVal(f[1], "miss") != "none" && ml > 3 {
+		ml = 3 // the missing-block configuration (operations failing half-way) is explored to length 3
+	}
+	es.enumerate(alpha, []string{alpha[first]}, ml)
 	r.Eval(es.evals)
 	r.Add("histories", es.histories)
 	r.Add("histories_ending_in_failed_op", es.failedOps)
@@ -298,7 +314,7 @@ func main() {
 		r.Rule(fmt.Sprintf("every operation history of length 1..%d over the alphabet %v (per configuration: autosync on/off, a DAG block missing) is run on the real dspinner over a recording datastore; for every history, every prefix of the write log that ends inside the history's last operation is taken as crash image (crash points in earlier operations belong to the shorter histories, so each (history, write) pair is evaluated once); a fresh MapDatastore is filled with the image, dspinner.New reopens it (dirty-flag recovery), then (i) raw /pins/pin records and /pins/index entries must agree both ways and (ii) every CID that IsPinned reported before the interrupted operation and also after its uninterrupted execution must be reported pinned. A case counts as non-trivial when the crash is strictly inside an operation (distinct canonical images are counted).", maxLen(r), alpha))
 		r.Assume("crash model of the statement: Put/Delete are individually durable in call order (prefixes of the write log); Batch.Commit would be key-by-key (basicBatch is not atomic) but the pinner never batches")
 		r.Assume("blocks of the DAG are durable and present after the crash (the block store is a separate datastore)")
-		r.Assume("images in which unsynced writes are lost out of order (all subsets of the writes not covered by a Sync when <= 6, single writes otherwise) are evaluated too but are beyond the statement's crash model: their failures are only counted in the evidence (beyond_statement_*), never reported as violations")
+		r.Assume("images in which unsynced writes are lost out of order (autosync-on configurations only: all subsets of the writes not covered by a Sync when <= 5, single writes otherwise) are evaluated too but are beyond the statement's crash model: their failures are only counted in the evidence (beyond_statement_*), never reported as violations")
 		r.Set("alphabet", alpha)
 		r.Set("max_history_length", maxLen(r))
 		units := []string{}
